@@ -87,11 +87,11 @@ structure Faithful (D : Decode) (cm : CMol) (cq : CQuery) : Prop where
     wordsOfQ qa = qWords (D.qmdl (j + 1)) (D.qat (j + 1)) (some (D.qbd (j + 1))) ∧
     (∀ x ∈ (D.qbd (j + 1)).orders, OrderOk x)
   qroot : ∀ qa, cq.atoms[0]? = some qa → wordsOfQ qa = qWords (D.qmdl 0) (D.qat 0) none
-  qdom : ∀ j, QDom (D.qat j) ∧ qmdlFor (D.qat j) = .ok (D.qmdl j)
+  qdom : ∀ j, j < cq.atoms.length → QDom (D.qat j) ∧ qmdlFor (D.qat j) = .ok (D.qmdl j)
   qrows : ∀ j qa, cq.atoms[j]? = some qa →
     ∃ qb, slice? cq.bonds qa.from_ qa.to_ = some qb ∧ qb.length = qa.closure ∧ (qb.map (·.index)).Nodup ∧
       ∀ jb ∈ qb, jb.index < j ∧ jb.bond = closureWord (D.qcb j jb.index) ∧ (∀ x ∈ (D.qcb j jb.index).orders, OrderOk x)
-  pairs : ∀ j i, NoHeavyClash (D.qat j) (D.mat i) ∧ HKnown (D.qat j) (D.mat i)
+  pairs : ∀ j i, j < cq.atoms.length → i < cm.atoms.length → NoHeavyClash (D.qat j) (D.mat i) ∧ HKnown (D.qat j) (D.mat i)
 
 /-- `s_bond == o_bond and s_atom == o_atom` on the decoded objects -/
 def refNext (D : Decode) (j n' mi : Nat) : Bool := pyEq (D.qat j) (D.mat mi) && bondEq (D.qbd j) (D.mbd n' mi)
@@ -171,8 +171,10 @@ theorem nextOk_eq_ref (D : Decode) (cm : CMol) (cq : CQuery) (hF : Faithful D cm
   obtain ⟨_, hrow⟩ := hF.rows n' nAtom row hn hr
   obtain ⟨hb, ho, _⟩ := hrow ib hib
   obtain ⟨hqw, hqo⟩ := hF.qatoms j qa hqa
-  obtain ⟨hqd, hqm⟩ := hF.qdom (j + 1)
-  obtain ⟨hc, hh⟩ := hF.pairs (j + 1) ib.index
+  have hjl : j + 1 < cq.atoms.length := (List.getElem?_eq_some_iff.mp hqa).1
+  have hil : ib.index < cm.atoms.length := (List.getElem?_eq_some_iff.mp hm).1
+  obtain ⟨hqd, hqm⟩ := hF.qdom (j + 1) hjl
+  obtain ⟨hc, hh⟩ := hF.pairs (j + 1) ib.index hjl hil
   rw [nextOk_eq_nextW, hw, hqw, hb]
   rw [mask_next_norm (D.mdl ib.index) (D.qmdl (j + 1)) (D.qat (j + 1)) (D.qbd (j + 1)) (D.mat ib.index) (D.mbd n' ib.index) hqd had
       ⟨ho, hqo⟩ (qmdl_eq _ _ _ _ hmdl hqm hc (fun z => mdl_tables_agree_gen ChythonModel.Gen.periodicTable table_rows z)),
@@ -453,8 +455,10 @@ def rootsR (D : Decode) (m : CMol) (q : CQuery) (scope : List Bool) : Option (Li
 theorem rootOk_eq_ref (D : Decode) (cm : CMol) (cq : CQuery) (hF : Faithful D cm cq) (qa : CQAtom) (hqa : cq.atoms[0]? = some qa)
     (i : Nat) (ca : CAtom) (hca : cm.atoms[i]? = some ca) : rootOk qa ca = pyEq (D.qat 0) (D.mat i) := by
   obtain ⟨hw, had, hmdl⟩ := hF.atoms i ca hca
-  obtain ⟨hqd, hqm⟩ := hF.qdom 0
-  obtain ⟨hc, hh⟩ := hF.pairs 0 i
+  have hjl : 0 < cq.atoms.length := (List.getElem?_eq_some_iff.mp hqa).1
+  have hil : i < cm.atoms.length := (List.getElem?_eq_some_iff.mp hca).1
+  obtain ⟨hqd, hqm⟩ := hF.qdom 0 hjl
+  obtain ⟨hc, hh⟩ := hF.pairs 0 i hjl hil
   rw [rootOk_eq_rootW, hw, hF.qroot qa hqa,
     mask_root_norm (D.mdl i) (D.qmdl 0) (D.qat 0) (D.mat i) hqd had
       (qmdl_eq _ _ _ _ hmdl hqm hc (fun z => mdl_tables_agree_gen ChythonModel.Gen.periodicTable table_rows z)),
